@@ -5,8 +5,8 @@
      handle_append_entries (+ append_leader_entries) / handle_append_entries_response /
      try_advance_commit_index / propose / get_entries_for_follower + send_heartbeats /
      restart from the WAL (persistent part kept, volatile part reset).
-   Fixed membership, no log compaction / snapshot install (log_base_index = 0), no leadership
-   transfer.  Guards that depend on wall-clock or float state (candidate health, geometric
+   handle_timeout_now (leadership transfer, receiving side).
+   Fixed membership, no log compaction / snapshot install (log_base_index = 0).  Guards that depend on wall-clock or float state (candidate health, geometric
    tie-break, pre-vote timeout_elapsed, is_write_safe) are refusal oracles: an extra Boolean that
    can only turn a grant into a refusal.
    The follower's acknowledgement rule (match_index, commit clamp), the stale-response rule and the
@@ -283,7 +283,9 @@ Inductive gop :=
 | GHeartbeat (i : N)             (* send_heartbeats *)
 | GPropose (i payload : N) (ok : bool)
 | GDeliver (k : N) (ok : bool)   (* deliver pool message k to its destination; ok = refusal oracle *)
-| GRestart (i : N).
+| GRestart (i : N)
+| GTimeoutNow (i : N) (ok : bool). (* node i accepts a TimeoutNow (leadership transfer): start_election at once,
+                                     no pre-vote, no broadcast; ok = sender is the believed leader and terms match *)
 
 Definition nth_node (ns : list node) (i : N) : node := nth (N.to_nat i) ns init_node.
 Fixpoint set_nth_node (ns : list node) (i : nat) (x : node) : list node :=
@@ -333,6 +335,9 @@ Definition gstep (s : sys) (o : gop) : sys * N :=
       end
   | GRestart i =>
       if valid_id i then (upd_node s i (restart (nth_node (nodes s) i)) [], i) else (s, i)
+  | GTimeoutNow i ok =>
+      if valid_id i then (if ok then (upd_node s i (start_election i (nth_node (nodes s) i)) [], i) else (s, i))
+      else (s, i)
   end.
 
 Definition init_sys : sys := Sys (map (fun _ => init_node) (N_seq (n_nodes cfg))) [].
